@@ -324,14 +324,17 @@ struct Slot {
     char pin[512];
 };
 struct DistinctTable {
-    static constexpr size_t N = 1u << 24;  // 16M entries, 128 MiB virtual (MAP_NORESERVE)
+    // open-addressing set in shared memory, sized from the number of runs (power of two >= 2 * runs, 2^20 .. 2^27 entries; MAP_NORESERVE)
+    size_t N;
     std::atomic<uint64_t> count;
     std::atomic<uint64_t> overflow;
-    std::atomic<uint64_t> tab[N];
+    std::atomic<uint64_t> tab[1];
+    static size_t entries_for(uint64_t runs) { size_t n = (size_t)1 << 20; while (n < 2 * runs && n < ((size_t)1 << 27)) n <<= 1; return n; }
+    static size_t bytes_for(size_t n) { return sizeof(DistinctTable) + n * sizeof(std::atomic<uint64_t>); }
     void insert(uint64_t k) {
         k |= 1;
-        if (count.load(std::memory_order_relaxed) > N * 3 / 4) { overflow.store(1); return; }
-        size_t i = (size_t)((k * 0x9e3779b97f4a7c15ULL) >> 40) & (N - 1);
+        if (count.load(std::memory_order_relaxed) > N / 4 * 3) { overflow.store(1); return; }
+        size_t i = (size_t)((k * 0x9e3779b97f4a7c15ULL) >> 37) & (N - 1);
         for (;;) {
             uint64_t cur = tab[i].load(std::memory_order_relaxed);
             if (cur == k) return;
@@ -487,8 +490,10 @@ static int run_batch() {
     fflush(stdout);
 
     Slot *slots = (Slot *)mmap(nullptr, sizeof(Slot) * (size_t)W, PROT_READ | PROT_WRITE, MAP_SHARED | MAP_ANONYMOUS, -1, 0);
-    DistinctTable *dt = (DistinctTable *)mmap(nullptr, sizeof(DistinctTable), PROT_READ | PROT_WRITE, MAP_SHARED | MAP_ANONYMOUS | MAP_NORESERVE, -1, 0);
+    const size_t dtn = DistinctTable::entries_for(total);
+    DistinctTable *dt = (DistinctTable *)mmap(nullptr, DistinctTable::bytes_for(dtn), PROT_READ | PROT_WRITE, MAP_SHARED | MAP_ANONYMOUS | MAP_NORESERVE, -1, 0);
     if (slots == MAP_FAILED || dt == MAP_FAILED) { perror("mmap"); return 2; }
+    dt->N = dtn;
 
     struct WState { pid_t pid = -1; int fd = -1; std::string buf; bool finished = false; };
     std::vector<WState> ws((size_t)W);
